@@ -1027,15 +1027,70 @@ def atom_of(cond, polarity):
     return ("truth", canon(c), pol, c)
 
 
-def conjuncts(e, polarity=True):
-    """Atoms that must hold when expression e evaluates to `polarity`."""
+def substitute(e, mapping):
+    """Copy of expression tree e with references to the declarations in mapping replaced by the mapped nodes."""
+    def go(x):
+        if isinstance(x, list):
+            return [go(y) for y in x]
+        if not isinstance(x, dict):
+            return x
+        if x.get("k") == "ref" and x.get("decl") in mapping:
+            return mapping[x["decl"]]
+        if "k" not in x:
+            return x
+        return {k2: (v if k2 in NONCHILD_KEYS or not isinstance(v, (dict, list)) else go(v)) for k2, v in x.items()}
+    return go(e)
+
+
+def inline_predicate(fb, call):
+    """The boolean expression a call to a one-line in-repo predicate stands for — `return <expr over the
+    parameters>;` in a free or static function, arguments substituted — or None."""
+    if fb is None or call.get("k") != "call" or call.get("op") is not None:
+        return None
+    if "obj" in call and not (call.get("callee") or {}).get("static"):
+        return None
+    g = fb.resolve_call(call)
+    if g is None or g.body is None or (g.raw.get("rett") or {}).get("k") != "bool":
+        return None
+    body = g.body.get("body", []) if g.body.get("k") == "compound" else [g.body]
+    if len(body) != 1 or body[0].get("k") != "return" or not isinstance(body[0].get("e"), dict):
+        return None
+    args = call.get("args", [])
+    if len(args) != len(g.params):
+        return None
+    e = body[0]["e"]
+    # only expressions over the parameters (and constants): no state of its own
+    pd = {p["decl"] for p in g.params}
+    for x in walk(e):
+        if x.get("k") == "ref" and x.get("dk") in ("local", "param") and x.get("decl") not in pd:
+            return None
+        if x.get("k") in ("assign", "cassign") or (x.get("k") == "un" and x.get("op") in ("pre++", "post++", "pre--", "post--")):
+            return None
+    # an argument with a call in it is evaluated once at the call; substituting it is only sound when it is used (it may be
+    # evaluated lazily inside the predicate, which is the same or fewer evaluations of a side-effect-free getter)
+    return substitute(e, {p["decl"]: a for p, a in zip(g.params, args)})
+
+
+def conjuncts(e, polarity=True, fn=None, _depth=0):
+    """Atoms that must hold when expression e evaluates to `polarity`.  With fn given, boolean locals
+    with one stable definition and one-line in-repo predicates are looked through."""
     e = strip(e)
     if e.get("k") == "bin" and e.get("op") == "&&" and polarity:
-        return conjuncts(e["l"], True) + conjuncts(e["r"], True)
+        return conjuncts(e["l"], True, fn, _depth) + conjuncts(e["r"], True, fn, _depth)
     if e.get("k") == "bin" and e.get("op") == "||" and not polarity:
-        return conjuncts(e["l"], False) + conjuncts(e["r"], False)
+        return conjuncts(e["l"], False, fn, _depth) + conjuncts(e["r"], False, fn, _depth)
     if e.get("k") == "un" and e.get("op") == "!":
-        return conjuncts(e["e"], not polarity)
+        return conjuncts(e["e"], not polarity, fn, _depth)
+    if fn is not None and _depth < 4:
+        x = strip_all_casts(e)
+        if x.get("k") == "ref" and x.get("dk") == "local" and (x.get("t") or {}).get("k") == "bool":
+            y = expand(fn, x, 1)
+            if y is not x and strip_all_casts(y).get("k") != "ref":
+                return [atom_of(e, polarity)] + conjuncts(y, polarity, fn, _depth + 1)
+        if x.get("k") == "call":
+            y = inline_predicate(getattr(fn, "fb", None), x)
+            if y is not None:
+                return [atom_of(e, polarity)] + conjuncts(y, polarity, fn, _depth + 1)
     return [atom_of(e, polarity)]
 
 
@@ -1148,7 +1203,7 @@ class MustFacts:
                     if cfg.is_cond_branch(p):
                         leaf = cfg.branch_leaf(p)
                         if leaf is not None:
-                            for a in conjuncts(leaf, idx == 0):
+                            for a in conjuncts(leaf, idx == 0, self.fn):
                                 out[self._fact_key(a)] = a
                     if acc is TOP:
                         acc = out
